@@ -32,7 +32,11 @@ func (sel *Selection) Find(path string) (*Selection, error) {
 		if err != nil {
 			return nil, err
 		}
-		if err = BuildConstraints(s, u.Query()); err != nil {
+		params, err := parseQueryParams(u.RawQuery)
+		if err != nil {
+			return nil, err
+		}
+		if err = BuildConstraints(s, params); err != nil {
 			return nil, err
 		}
 		p = p[:qmark]
